@@ -69,7 +69,7 @@ def exact_points(m, pts):
     return probs
 
 
-def numeric_predicates(m, seed):
+def _numeric_predicates(m, seed):
     earth, T = m["pyins"].earth, m["transform"]
     ni = m["pyins"]._numba_integrate
     rng = np.random.RandomState((seed * 17 + 9) % (2 ** 31))
@@ -198,3 +198,14 @@ def replay(rep, pid, case):
             pts.append((v[1], v[2], [list(x) for x in v[3]], list(v[4]), list(v[5])))
     for p in exact_points(m, pts):
         rep.violation("C16 replay: %s" % p, case)
+
+
+def numeric_predicates(m, seed):
+    """An exception raised by the library while a predicate is evaluated is an observation (a failing predicate); one that never
+    entered pyins is a defect of the harness."""
+    try:
+        return _numeric_predicates(m, seed)
+    except Exception as e:
+        if not exc.entered_pyins(e):
+            raise
+        return [("library_raised", False, exc.describe(e))]
